@@ -64,7 +64,14 @@ type schedStep struct {
 	G    int    `json:"g"`
 	Op   string `json:"op"`
 	Pos  string `json:"pos,omitempty"`
+	UPos string `json:"upos,omitempty"`
 	Case int    `json:"case"`
+}
+
+type gorInfo struct {
+	ID   int    `json:"id"`
+	Name string `json:"name"`
+	Env  bool   `json:"env"`
 }
 
 type Violation struct {
@@ -79,6 +86,7 @@ type Violation struct {
 	Trace   []decision
 	Harness string
 	Stack   []string
+	Gors    []gorInfo
 }
 
 type obsEntry struct {
@@ -402,6 +410,9 @@ func (p *Path) mkViolation(label, known, msg string, pos token.Pos, model map[st
 		Trace: append([]decision{}, p.trace...), Harness: p.harness.Name()}
 	if p.sched != nil {
 		v.Sched = append([]schedStep{}, p.sched.trace...)
+		for _, g := range p.sched.gs {
+			v.Gors = append(v.Gors, gorInfo{g.id, g.name, g.env})
+		}
 	}
 	return v
 }
